@@ -503,3 +503,43 @@ func writeMarshal(repoRoot, srcRoot, verifRoot string, check bool) int {
 	}
 	return stale
 }
+
+// ---------------- verifier contracts ----------------
+
+func pedersenPkgs(srcRoot string) []string {
+	dirs, _ := filepath.Glob(filepath.Join(srcRoot, "ecc", "*", "fr", "pedersen"))
+	var out []string
+	for _, d := range dirs {
+		out = append(out, "./"+strings.TrimPrefix(d, srcRoot+"/"))
+	}
+	return out
+}
+
+func writeVerifiers(repoRoot, srcRoot, verifRoot string, check bool) int {
+	b, err := os.ReadFile(filepath.Join(verifRoot, "contracts", "verifiers", "pedersen.go.tmpl"))
+	if err != nil {
+		return 0
+	}
+	stale := 0
+	for _, pk := range pedersenPkgs(srcRoot) {
+		rel := strings.TrimPrefix(pk, "./")
+		curveDir := filepath.Join(srcRoot, filepath.Dir(filepath.Dir(rel)))
+		src, _ := os.ReadFile(filepath.Join(curveDir, "g1.go"))
+		pkg := ""
+		fmt.Sscanf(after(string(src), "\npackage "), "%s", &pkg)
+		s := strings.ReplaceAll(string(b), "CURVEPKG", pkg)
+		dst := filepath.Join(repoRoot, rel, "zz_verif_contracts_pedersen.go")
+		if check {
+			cur, _ := os.ReadFile(dst)
+			if string(cur) != s {
+				fmt.Println("stale:", dst)
+				stale++
+			}
+			continue
+		}
+		os.MkdirAll(filepath.Dir(dst), 0o755)
+		os.WriteFile(dst, []byte(s), 0o644)
+		fmt.Println("wrote", dst)
+	}
+	return stale
+}
